@@ -1,62 +1,136 @@
 """C17 - recursive in-circuit verifiers accept exactly what the native verifiers accept.
-The behaviours of Groth16Protocol.tla (circuit shape x edits to a genuine (proof, verifying key, public witness): element
-replacements by other-proof / negated / infinity / torsion elements, public-input edits, padding, replays) are produced by
-TLC as for C01; each edited triple is judged by the native BLS12-377 verifier and handed to the in-circuit verifier of
-std/recursion/groth16 compiled over BW6-761 (complete arithmetic and subgroup checks, the options matching the native
-verifier): the outer circuit must be satisfiable exactly when the native verifier accepts."""
+Inner side: the behaviours of Groth16Protocol.tla and PlonkProtocol.tla (circuit shape x edits to a genuine (proof,
+verifying key, public witness): element replacements by other-proof / negated / infinity / torsion / off-subgroup elements,
+altered claimed values and public inputs, other keys, tampered assignments, padding) produced by TLC as for C01 / C02.
+Outer side: Recursion.tla enumerates how std/recursion hands the triple to the in-circuit verifier (key as witness, key as
+circuit constant, key selected among candidates by a circuit variable - including a selector that designates another key
+or no key -, PLONK batches with a genuine proof, complete / incomplete arithmetic) and states which verdict the outer
+circuit must have.  Every (behaviour, configuration) pair is run on the native BLS12-377 verifier configured with the
+recursion options and on the in-circuit verifier over BW6-761: the outer circuit must be satisfiable exactly when the native
+verifier accepts the triple against the selected key, and both must agree with Recursion.tla."""
 import vlib
 from protocol_common import beh_sig
 
-SHAPES = ('p1', 'p2u')     # inner circuits without commitments
+G16_SHAPES = ('p1', 'p2u', 'c1s', 'c1p', 'c1po')          # the in-circuit Groth16 verifier supports at most one commitment
+PLONK_SHAPES = ('p1', 'p2u', 'c1s', 'c1p', 'c1po', 'c2', 'c2i')
+LENGTH_EDITS = ('ExtendPub', 'TruncPub', 'TruncCV', 'ExtendCV', 'BsbDrop', 'BsbAppend', 'CommitDrop', 'CommitAppend')
+SPECIAL = ('inf', 'zero', 'vkel', 'dup')
+
+
+def cfg_key(c):
+    return (c['backend'], c['mode'], c['nkeys'], c['pos'], c['idx'], c['arith'])
 
 
 def run(ctx):
     quick = ctx.tier == 'quick'
-    ctx.rule = ('behaviour = inner circuit shape x edit sequence (TLC, Groth16Protocol.tla) judged natively and in-circuit; '
-                'non-trivial = at least one edit')
+    ctx.rule = ('case = inner behaviour (circuit shape x edit sequence, TLC) x outer configuration (Recursion.tla) judged natively '
+                'and in-circuit; non-trivial = at least one edit or a selector that does not designate the triple\'s own key')
     ctx.assumptions += [
-        'Groth16 two-chain (BLS12-377 inner, BW6-761 outer) with witness-supplied verifying key; inner circuits without commitments',
+        'two-chain recursion (BLS12-377 inner, BW6-761 outer); Groth16 inner circuits with 0 or 1 commitment (the in-circuit '
+        'verifier supports no more), PLONK inner circuits with 0-2 commitments; native prover / verifier run with the recursion options',
         'the outer circuit is evaluated by the test engine (satisfiability of the verifier gadget), not proven',
-        'edits that change the length of the public witness are outside the in-circuit verifier\'s input space (the size is fixed by the outer circuit)',
-        'not covered: PLONK recursion, emulated pairings (BN254 / BLS12-381 / BW6 in BN254), Pedersen commitments in the inner proof, key switching',
+        'edits that change a length (public witness, claimed values, commitments) are outside the in-circuit verifier\'s input '
+        'space: the sizes are fixed by the outer circuit',
+        'incomplete arithmetic: behaviours with exceptional elements (infinity, key elements, zero scalars) are not judged',
+        'not covered: emulated pairings (BN254 / BLS12-381 / BW6-761 inner over BN254), BLS24-315 in BW6-633',
     ]
-    r1 = ctx.tlc('Groth16Protocol', 'Groth16Protocol_gen1.cfg', workers=1)
-    rp = ctx.tlc('Groth16Protocol', 'Groth16Protocol_pad.cfg', workers=1)
-    # a public witness of another length cannot be expressed for the in-circuit verifier (its size is part of the circuit)
-    fits = lambda b: b['shape'] in SHAPES and not any(e['op'] in ('ExtendPub', 'TruncPub') for e in b['edits'])
-    behs = [b for b in r1.beh + rp.beh if fits(b)]
-    if not quick:
-        r2 = ctx.tlc('Groth16Protocol', 'Groth16Protocol_gen2.cfg', workers=1, timeout=1800)
-        pairs = [b for b in r2.beh if len(b['edits']) == 2 and fits(b)]
-        ctx.rng.shuffle(pairs)
-        behs += pairs[:600]
-    if len(behs) < 40:
-        raise vlib.Infra('too few behaviours without commitments: %d' % len(behs))
-    if quick:
+    # ---- outer configurations
+    rc = ctx.tlc('Recursion', 'Recursion.cfg', workers=1)
+    expect = {}
+    for r in rc.beh:
+        c = r['cfg']
+        expect[cfg_key(c) + (c['innerOK'], c['special'])] = r['expect']
+    outer = sorted({cfg_key(r['cfg']) for r in rc.beh})
+    if len(outer) < 20:
+        raise vlib.Infra('Recursion.tla produced %d outer configurations' % len(outer))
+    ctx.extra['outer_configurations'] = len(outer)
+    # ---- inner behaviours
+    def fits(b, shapes):
+        return b['shape'] in shapes and not any(e['op'] in LENGTH_EDITS for e in b['edits'])
+    inner = {}
+    for backend, module, shapes in (('groth16', 'Groth16Protocol', G16_SHAPES), ('plonk', 'PlonkProtocol', PLONK_SHAPES)):
+        r1 = ctx.tlc(module, module + '_gen1.cfg', workers=1)
+        rp = ctx.tlc(module, module + '_pad.cfg', workers=1)
+        behs = [b for b in r1.beh + rp.beh if fits(b, shapes)]
+        if not quick:
+            r2 = ctx.tlc(module, module + '_gen2.cfg', workers=1, timeout=1800)
+            pairs = [b for b in r2.beh if len(b['edits']) == 2 and fits(b, shapes)]
+            ctx.rng.shuffle(pairs)
+            behs += pairs[:1500]
+        if len(behs) < 40:
+            raise vlib.Infra('too few %s behaviours: %d' % (backend, len(behs)))
+        inner[backend] = behs
+    # ---- pair every behaviour with outer configurations: every behaviour in witness mode, and a rotation through the others
+    cases = []
+    for backend, behs in inner.items():
+        cfgs = [c for c in outer if c[0] == backend]
+        others = [c for c in cfgs if not (c[1] == 'witness' and c[5] == 'complete')]
         ctx.rng.shuffle(behs)
-        behs = behs[:160]
-    for i, b in enumerate(behs):
-        b['id'] = i
+        per = 1 if quick else 3
+        for n, b in enumerate(behs):
+            special = any(e.get('cls') in SPECIAL for e in b['edits'])
+            chosen = [(backend, 'witness', 1, 0, 0, 'complete')]
+            for k in range(per):
+                chosen.append(others[(n * per + k) % len(others)])
+            if not b['edits']:
+                chosen = cfgs          # the genuine triple goes through every configuration
+            for c in chosen:
+                if c[5] == 'incomplete' and special:
+                    continue
+                cases.append(dict(b, backend=c[0], mode=c[1], nkeys=c[2], pos=c[3], idx=c[4], arith=c[5], special=special))
+    if quick:
+        keep = [c for c in cases if not c['edits']]
+        rest = [c for c in cases if c['edits']]
+        ctx.rng.shuffle(rest)
+        cases = keep + rest[:1400]
+    for i, c in enumerate(cases):
+        c['id'] = i
     ctx.exhaustive = False
-    res = ctx.harness(['c17replay', '--par', '16'], behs, timeout=10000)
-    if len(res) != len(behs):
+    res = ctx.harness(['c17replay', '--par', '16'], cases, timeout=10000)
+    if len(res) != len(cases):
         raise vlib.Infra('short recursion replay')
     judged = 0
+    seen_cfg = set()
+    verdicts = {}
     for rr in res:
-        b = behs[rr['id']]
-        if rr['circuit'] == 'skip':
+        b = cases[rr['id']]
+        if rr['circuit'] in ('skip', 'unsupported'):
             continue
         if rr['native'] not in ('accept', 'reject'):
             raise vlib.Infra('native verdict unusable: %s' % rr)
-        judged += 1
-        ctx.case(key=beh_sig(b), nontrivial=len(b['edits']) > 0)
-        ctx.traces += 1
         circuit = 'reject' if rr['circuit'] == 'unassignable' else rr['circuit']
+        name = '%s mode=%s keys=%d pos=%d idx=%d arith=%s %s' % (b['backend'], b['mode'], b['nkeys'], b['pos'], b['idx'], b['arith'], beh_sig(b))
+        # what Recursion.tla demands, given the native verdict on the triple's own key
+        if b['mode'] == 'switch' and b['idx'] != b['pos']:
+            # the selector designates another key or no key: rejected whatever the triple is
+            models = {expect.get((b['backend'], b['mode'], b['nkeys'], b['pos'], b['idx'], b['arith'], ok, b['special'])) for ok in (True, False)}
+            model = models.pop() if len(models) == 1 else None
+        else:
+            model = expect.get((b['backend'], b['mode'], b['nkeys'], b['pos'], b['idx'], b['arith'], rr['native'] == 'accept', b['special']))
+        if model is None:
+            raise vlib.Infra('no Recursion.tla configuration for %s' % name)
+        if model == 'either':
+            continue
+        if model != rr['native']:
+            raise vlib.Infra('native oracle and Recursion.tla disagree on %s: %s vs %s' % (name, rr['native'], model))
+        judged += 1
+        seen_cfg.add(cfg_key(b))
+        verdicts[(b['backend'], rr['native'])] = verdicts.get((b['backend'], rr['native']), 0) + 1
+        ctx.case(key=name, nontrivial=len(b['edits']) > 0 or (b['mode'] == 'switch' and b['idx'] != b['pos']))
+        ctx.traces += 1
         if circuit != rr['native']:
-            ctx.report('recursion groth16 %s: native verifier %ss, in-circuit verifier %ss' % (beh_sig(b), rr['native'], circuit),
-                       {'behaviour': b, 'result': rr})
-    if judged < len(behs) // 3:
-        raise vlib.Infra('only %d of %d behaviours reached the in-circuit verifier' % (judged, len(behs)))
+            ctx.report('recursion %s mode=%s idx%spos arith=%s %s: native verifier %ss, in-circuit verifier %ss'
+                       % (b['backend'], b['mode'], '=' if b['idx'] == b['pos'] else '!=', b['arith'], beh_sig(b), rr['native'], circuit),
+                       {'case': b, 'result': rr})
+    if judged < len(cases) // 3:
+        raise vlib.Infra('only %d of %d cases reached the in-circuit verifier' % (judged, len(cases)))
+    missing = [c for c in outer if c not in seen_cfg]
+    if missing:
+        raise vlib.Infra('outer configurations never judged: %s' % missing[:5])
+    for k in (('groth16', 'accept'), ('groth16', 'reject'), ('plonk', 'accept'), ('plonk', 'reject')):
+        if verdicts.get(k, 0) < 5:
+            raise vlib.Infra('vacuous: only %d %s cases with native verdict %s' % (verdicts.get(k, 0), k[0], k[1]))
     ctx.extra['judged'] = judged
-    ctx.sample(behs[0])
-    ctx.sample(behs[-1])
+    ctx.extra['verdicts'] = {'%s/%s' % k: v for k, v in verdicts.items()}
+    ctx.sample(cases[0])
+    ctx.sample(cases[-1])
